@@ -328,7 +328,9 @@ def identical(ex, st, a, b):
     if isinstance(a, VOpaque) and isinstance(b, VBool) or isinstance(b, VOpaque) and isinstance(a, VBool):
         from .values import opaque_is_true
         o, x = (a, b) if isinstance(a, VOpaque) else (b, a)
-        return z3.If(x.t, opaque_is_true(o.t), z3.And(z3.Not(opaque_is_true(o.t)), z3.Bool(uid('is_false'))))
+        # `o is False`: unknown, but a function of the value (and exclusive with `o is True`)
+        return z3.If(x.t, opaque_is_true(o.t),
+                     z3.And(z3.Not(opaque_is_true(o.t)), z3.Function('opaque_is_false', ObjSort, z3.BoolSort())(o.t)))
     if isinstance(a, VBool) and isinstance(b, VBool):
         return a.t == b.t
     if isinstance(a, VObj) and isinstance(b, VObj):
@@ -1129,11 +1131,11 @@ def b_isinstance(ex, st, args, kwargs, node):
     elif isinstance(v, VOpaque):
         # an opaque value is an instance of some class we know nothing about; it is NOT one of the builtin
         # value types (those are modelled by their own shapes)
-        builtin_names = {'int', 'float', 'str', 'tuple', 'list', 'dict', 'bool', 'bytes', 'set'}
-        if all(n in builtin_names for n in tn):
-            return [(st, VBool(False))]
-        b = z3.Bool(uid('isinst'))
-        return [(st, VBool(b))]
+        # an unknown value may be an instance of anything (also of tuple / str ...): unknown, but a function of the value
+        # and the class list - the same test on the same value gives the same answer
+        import re as _re
+        nm = _re.sub(r'[^A-Za-z0-9_]', '_', '_or_'.join(sorted(tn)))
+        return [(st, VBool(z3.Function('opaque_isinstance_' + nm, ObjSort, z3.BoolSort())(v.t)))]
     else:
         mine = shape_names.get(v.shape, [])
     return [(st, VBool(any(n in mine for n in tn)))]
@@ -1222,6 +1224,18 @@ def b_sorted(ex, st, args, kwargs, node):
     sq = args[0]
     if isinstance(sq, VSeq) and sq.concrete and len(sq.items) <= 1:
         return [(st, sq.with_kind('list'))]
+    if not st.spec and isinstance(sq, (VSeq, VOpaque, VDict)):
+        # some list with as many elements (order and content not modelled)
+        if isinstance(sq, VSeq):
+            n = sq.length()
+        elif isinstance(sq, VDict) and sq.items is not None:
+            n = z3.IntVal(len(sq.items))
+        else:
+            n = z3.Int(uid('sorted.len'))
+            st.assume(n >= 0)
+        f = z3.Function(uid('sorted'), z3.IntSort(), ObjSort)
+        ex.used_stubs.add('sorted(x): an unknown list of the same length (order and content not modelled)')
+        return [(st, VSeq(length=n, elem=lambda i, f=f: VOpaque(f(i)), kind='list'))]
     raise Unsupported('sorted()')
 
 
@@ -1460,6 +1474,24 @@ def writeback(ex, st, node, newval):
 @method('seq', 'append')
 def seq_m_append(ex, st, selfv, args, kwargs, node):
     new = seq_append(ex, st, selfv, args[0])
+    if not st.spec and (ex.cur_target or {}).get('default_callee') == 'opaque':
+        # orchestration targets: what is queued on a work list is observable for trace clauses (pure event)
+        from .engine import Event
+        st.trace.append(Event('append', [selfv, args[0]], {}, None, dict(st.ghost), getattr(node, 'lineno', 0), recv=None))
+    return [(s, NONE) for s in writeback(ex, st, node, new)]
+
+
+@method('seq', 'sort')
+def seq_m_sort(ex, st, selfv, args, kwargs, node):
+    """in-place sort: the list becomes SOME list of the same length (the permutation / order is not modelled)"""
+    if st.spec:
+        raise Unsupported('sort in spec')
+    n = selfv.length()
+    if selfv.concrete and len(selfv.items) <= 1:
+        return [(st, NONE)]
+    f = z3.Function(uid('sorted'), z3.IntSort(), ObjSort)
+    new = VSeq(length=n, elem=lambda i, f=f: VOpaque(f(i)), kind='list')
+    ex.used_stubs.add('list.sort(): an unknown list of the same length (order and multiset not modelled)')
     return [(s, NONE) for s in writeback(ex, st, node, new)]
 
 
